@@ -350,6 +350,12 @@ def check(st, hist, a):
             fails.append({"check": "values", "what": "r%d (%s): values %s, model %s" % (k, mod.kind, vals.tolist(), exp.tolist())})
         if vt != mod.vtype:
             fails.append({"check": "value_type", "what": "r%d: value_type %r, model %r" % (k, vt, mod.vtype)})
+        if mod.kind == "Function":
+            # the cached values may hide a corrupted definition: a copy has no cache and re-evaluates it
+            fresh = np.asarray(obj.copy().values, dtype=float)
+            if fresh.shape != exp.shape or not np.all(np.abs(fresh - exp) <= tol):
+                fails.append({"check": "definition", "what": "r%d: a fresh copy evaluates to %s, model %s (cached values %s)"
+                                                             % (k, fresh.tolist(), exp.tolist(), vals.tolist())})
         # no aliasing with harness-held arguments
         for name, arr in _arrays(obj):
             for arg, _ in st.ext:
